@@ -1,0 +1,34 @@
+//go:build verif
+
+package postgresql
+
+import (
+	"github.com/cossacklabs/acra/decryptor/base"
+	encryptor "github.com/cossacklabs/acra/encryptor/base"
+	"github.com/cossacklabs/acra/encryptor/postgresql"
+)
+
+// Verification hook (add-only, compiled with -tags verif only).
+
+// VerifS55WriteChain returns the DataEncryptor chains reachable from the proxy's query observers (the
+// queryDataEncryptor proxyFactory.New hands to postgresql.NewQueryEncryptor), in observer order.
+func VerifS55WriteChain(p base.Proxy) []encryptor.DataEncryptor {
+	var out []encryptor.DataEncryptor
+	var walk func(m postgresql.QueryObserverManager)
+	walk = func(m postgresql.QueryObserverManager) {
+		am, ok := m.(*postgresql.ArrayQueryObservableManager)
+		if !ok {
+			return
+		}
+		for _, o := range am.VerifS55Observers() {
+			switch v := o.(type) {
+			case *postgresql.QueryDataEncryptor:
+				out = append(out, v.VerifS55DataEncryptor())
+			case postgresql.QueryObserverManager:
+				walk(v)
+			}
+		}
+	}
+	walk(p.(*PgProxy).queryObserverManager)
+	return out
+}
